@@ -12,7 +12,7 @@ from fv import sym
 from fv.choice import CV
 from fv.sym import engine
 
-MAX_ELEMS = 4
+MAX_ELEMS = 5
 _counter = [0]
 LOG = []  # (site serial, chosen order as tuple of keys) of the current path
 
